@@ -7,6 +7,7 @@ import RapidProofs.Shrink
 import RapidProofs.PassRefine
 import RapidProofs.PruneAssert
 import RapidModel.Generated.CallOrders
+import RapidModel.Generated.Consts
 import RapidProofs.PruneCustomAssert
 import RapidProofs.TranslatedMinEq
 import RapidProofs.TranslatedPruneEq
@@ -372,5 +373,9 @@ theorem traceback_body_source : Rapid.Generated.body_traceback =
 /-- `sameError` re-read from /repo statement by statement: same message and same traceback -/
 theorem sameError_body_source : Rapid.Generated.body_sameError =
     ["{", "return errorString(err1) == errorString(err2) && traceback(err1) == traceback(err2)", "}"] := by rfl
+
+/-- the number of frames `panicToError` looks at (`tracebackLen`, re-read from /repo): a failure site is the innermost 32 frames —
+    two call sites of the property that reach the same statement through fewer frames than that are different sites (S202 halved it) -/
+theorem traceback_len_source : Rapid.Generated.c_tracebackLen = 32 := by decide
 
 end Rapid.C05
